@@ -484,6 +484,41 @@ func c18r8(c *Ctx, r *Report) {
 		}
 		return false
 	}
+	isExitClosure := func(v ssa.Value) bool {
+		sig, ok := v.Type().Underlying().(*types.Signature)
+		if !ok || sig.Params().Len() != 1 || sig.Results().Len() != 0 {
+			return false
+		}
+		inner, ok := sig.Params().At(0).Type().Underlying().(*types.Signature)
+		if !ok || inner.Params().Len() != 0 || inner.Results().Len() != 1 {
+			return false
+		}
+		bt, ok := inner.Results().At(0).Type().Underlying().(*types.Basic)
+		return ok && bt.Kind() == types.Int
+	}
+	cellOfAddr := func(f *ssa.Function, a ssa.Value) *ssa.Alloc {
+		switch x := a.(type) {
+		case *ssa.Alloc:
+			return x
+		case *ssa.FreeVar:
+			return freeVarAlloc(f, x)
+		}
+		return nil
+	}
+	// boolean variables of Loop that a loop header tests
+	loopFlag := map[*ssa.Alloc]bool{}
+	for _, lp := range natLoops(loop) {
+		iff, ok := lp.hdr.Instrs[len(lp.hdr.Instrs)-1].(*ssa.If)
+		if !ok {
+			continue
+		}
+		if u, ok := iff.Cond.(*ssa.UnOp); ok && u.Op == token.MUL {
+			if al, ok := u.X.(*ssa.Alloc); ok {
+				loopFlag[al] = true
+			}
+		}
+	}
+	_ = namedVar
 	exits := map[int64]token.Pos{}
 	var stops map[int64]bool
 	nStop := 0
@@ -492,7 +527,8 @@ func c18r8(c *Ctx, r *Report) {
 		eachInstr(fn, func(in ssa.Instruction) {
 			switch x := in.(type) {
 			case *ssa.Call:
-				if x.Common().IsInvoke() || !namedVar(x.Common().Value, "exit") {
+				// the session-ending closure is recognised by its type: it takes the function that yields the exit code
+				if x.Common().IsInvoke() || !isExitClosure(x.Common().Value) {
 					return
 				}
 				if pc == nil {
@@ -507,7 +543,8 @@ func c18r8(c *Ctx, r *Report) {
 					exits[k] = x.Pos()
 				}
 			case *ssa.Store:
-				if !namedVar(x.Addr, "looping") {
+				// the event loop's flag is recognised by its use: the variable a loop header of Loop tests
+				if !loopFlag[cellOfAddr(fn, x.Addr)] || cellOfAddr(fn, x.Addr) == nil {
 					return
 				}
 				if k, ok := x.Val.(*ssa.Const); !ok || k.Value == nil || k.Value.String() != "false" {
@@ -1564,9 +1601,20 @@ func c18r9(c *Ctx, r *Report) {
 		if len(stores) == 0 {
 			continue
 		}
+		// the limit: the field History.maxSize, or a parameter that the function stores into that field
+		limitParams := map[*ssa.Parameter]bool{}
+		eachInstr(fn, func(in ssa.Instruction) {
+			if st, ok := in.(*ssa.Store); ok {
+				if fld, _ := fieldOf(st.Addr); fld != nil && fld.Name() == "maxSize" {
+					if p, ok := st.Val.(*ssa.Parameter); ok {
+						limitParams[p] = true
+					}
+				}
+			}
+		})
 		isLimit := func(v ssa.Value) bool {
 			for w := range backwardSlice(v, nil, nil) {
-				if p, ok := w.(*ssa.Parameter); ok && p.Name() == "maxSize" {
+				if p, ok := w.(*ssa.Parameter); ok && limitParams[p] {
 					return true
 				}
 				if fld, _ := loadedField(w); fld != nil && fld.Name() == "maxSize" {
@@ -2974,9 +3022,14 @@ func c09r12(c *Ctx, r *Report) {
 			if !ok || call.Common().StaticCallee() == nil {
 				return
 			}
-			switch call.Common().StaticCallee().Name() {
-			case "EmptyMerger", "PassMerger", "NewMerger":
-			default:
+			// a merger constructor: a package-level function returning *Merger
+			callee := call.Common().StaticCallee()
+			if callee.Signature.Recv() != nil || callee.Signature.Results().Len() != 1 {
+				return
+			}
+			if pt, ok := callee.Signature.Results().At(0).Type().(*types.Pointer); !ok {
+				return
+			} else if nn, ok := pt.Elem().(*types.Named); !ok || nn.Obj().Name() != "Merger" {
 				return
 			}
 			for _, a := range call.Call.Args {
@@ -3263,13 +3316,16 @@ func c12r10(c *Ctx, r *Report) {
 		if f.Name() != "ExecCommand" && f.Name() != "Become" {
 			continue
 		}
+		// the command is the function's only parameter of type string
 		var cmdp *ssa.Parameter
+		nStr := 0
 		for _, p := range f.Params {
-			if p.Name() == "command" {
+			if bt, ok := p.Type().Underlying().(*types.Basic); ok && bt.Kind() == types.String {
 				cmdp = p
+				nStr++
 			}
 		}
-		if cmdp == nil {
+		if cmdp == nil || nStr != 1 {
 			continue
 		}
 		n++
@@ -4516,10 +4572,13 @@ func c01r8(c *Ctx, r *Report) {
 		if fn.Blocks == nil || fn.Pkg != l.pkg("algo") {
 			continue
 		}
+		// the pattern is the function's parameter of type []rune
 		var pat *ssa.Parameter
 		for _, p := range fn.Params {
-			if p.Name() == "pattern" {
-				pat = p
+			if sl, ok := p.Type().Underlying().(*types.Slice); ok {
+				if bt, ok := sl.Elem().Underlying().(*types.Basic); ok && bt.Kind() == types.Int32 {
+					pat = p
+				}
 			}
 		}
 		if pat == nil {
